@@ -9,7 +9,7 @@ CONSTANTS NProcs = 3
           EmitOn = FALSE
           Sim = FALSE
 INIT Init
-NEXT Next
+NEXT NextAll
 INVARIANT TypeOk
 INVARIANT NoReaderError
 CHECK_DEADLOCK FALSE
